@@ -278,6 +278,142 @@ fn interleaved(v: &Verdicts, runs: usize, seed0: u64) -> (u64, BTreeSet<u64>, BT
 // ---------------------------------------------------------------- across a snapshot and a restart
 /// Sessions that were open when a snapshot was written are gone after a restart: the count starts from the sessions that
 /// are really there. Real files, start-up sequence of main.rs.
+/// Cluster part (Engine N): the count is node-local. Sessions select one database on the primary and on a secondary, the
+/// secondary leaves (kill or clean stop, disk kept or wiped) and re-joins through a full or since-a-time synchronisation
+/// while sessions come and go on the primary, then new sessions arrive on it: on every node the counter and the
+/// $connections key equal the sessions open on THAT node.
+fn cluster_part(v: &Verdicts, runs: usize, seed0: u64) -> (u64, u64, u64, u64) {
+    use crate::c04::form_cluster;
+    use crate::cluster::Outcome;
+    std::env::set_var("NUN_ELECTION_TIMEOUT", "30");
+    let (mut done, mut inconclusive, mut checks, mut full_with_early) = (0u64, 0u64, 0u64, 0u64);
+    for r in 0..runs {
+        let mut rng = Rng::new(seed0.wrapping_mul(7919).wrapping_add(r as u64));
+        let Some(mut c) = form_cluster(2, seed0.wrapping_add(r as u64), "c17c") else {
+            inconclusive += 1;
+            continue;
+        };
+        let mut trace: Vec<String> = vec![];
+        let mut expected = [0usize, 0usize];
+        let mut names: [Vec<String>; 2] = [vec![], vec![]];
+        c.open_session("p", 0);
+        c.call("p", "auth admin pwd");
+        c.call("p", "create-db cd tok");
+        let _ = c.run_until_quiet();
+        let open = |c: &mut crate::cluster::Cluster, name: String, node: usize, expected: &mut [usize; 2], names: &mut [Vec<String>; 2], trace: &mut Vec<String>| -> bool {
+            c.open_session(&name, node);
+            let (resp, _) = c.call(&name, "use-db cd tok");
+            if resp != "Ok" {
+                trace.push(format!("session {} on n{}: use-db refused ({})", name, node, resp));
+                return false;
+            }
+            expected[node] += 1;
+            names[node].push(name.clone());
+            trace.push(format!("session {} on n{} selects cd", name, node));
+            true
+        };
+        for i in 0..rng.range(0, 3) {
+            open(&mut c, format!("a{}", i), 0, &mut expected, &mut names, &mut trace);
+        }
+        for i in 0..rng.range(0, 2) {
+            open(&mut c, format!("b{}", i), 1, &mut expected, &mut names, &mut trace);
+        }
+        if rng.chance(3, 4) {
+            c.call("p", "use-db cd tok");
+            expected[0] += 1;
+            names[0].push("p".into());
+            c.call("p", "set k v");
+            trace.push("admin session on n0 selects cd and writes".into());
+        }
+        let _ = c.run_until_quiet();
+        if rng.chance(3, 4) {
+            c.call("p", "snapshot false cd");
+            let _ = c.run_until_quiet();
+            c.declutter(0);
+            c.declutter(1);
+            trace.push("snapshot of cd on both nodes".into());
+            // a key created after the snapshot: the secondary's operation log is no longer valid for a restart after a kill
+            // (it will ask for everything) while the database itself is on its disk
+            if names[0].contains(&"p".to_string()) && rng.chance(3, 4) {
+                c.call("p", "set fresh x");
+                let _ = c.run_until_quiet();
+                trace.push("a new key is written after the snapshot".into());
+            }
+        }
+        let (clean, wipe) = (rng.chance(1, 3), rng.chance(1, 4));
+        if clean {
+            c.clean_stop_node(1);
+        } else {
+            c.kill_node(1);
+        }
+        if wipe {
+            c.wipe_disk(1);
+        }
+        expected[1] = 0;
+        names[1].clear();
+        trace.push(format!("n1 leaves ({}, disk {})", if clean { "clean stop" } else { "kill" }, if wipe { "wiped" } else { "kept" }));
+        let q1 = c.run_until_quiet();
+        for i in 0..rng.range(0, 2) {
+            open(&mut c, format!("c{}", i), 0, &mut expected, &mut names, &mut trace);
+        }
+        let q2 = c.run_until_quiet();
+        let before_links = c.link_log().len();
+        c.start_node(1, 10_000, &[0, 1]);
+        // clients can get in before the node has joined: the listener is up first (only a database loaded from disk can be selected)
+        if rng.chance(5, 6) {
+            for i in 0..rng.range(1, 2) {
+                open(&mut c, format!("e{}", i), 1, &mut expected, &mut names, &mut trace);
+            }
+        }
+        let q3 = c.run_until_quiet();
+        c.declutter(0);
+        c.declutter(1);
+        let q4 = c.run_until_quiet();
+        let full_sync = c.link_log()[before_links..].iter().any(|l| l.1 == 1 && l.2 == 0 && l.3.starts_with("replicate-since ") && l.3.ends_with(" 0"));
+        trace.push(format!("n1 re-joins ({} synchronisation)", if full_sync { "full" } else { "since-a-time" }));
+        if full_sync && names[1].iter().any(|n| n.starts_with('e')) {
+            full_with_early += 1;
+        }
+        if std::env::var("VERIF_DEBUG_C17").is_ok() {
+            eprintln!("DBG run {} {:?}", r, trace);
+        }
+        if ![&q1, &q2, &q3, &q4].iter().all(|q| matches!(q, Outcome::Quiet(_))) || !c.panics().is_empty() {
+            inconclusive += 1; // re-joining is C05's / C07's business
+            c.shutdown();
+            continue;
+        }
+        for i in 0..rng.range(0, 1) {
+            open(&mut c, format!("d{}", i), 1, &mut expected, &mut names, &mut trace);
+        }
+        let _ = c.run_until_quiet();
+        for node in 0..2 {
+            let dbs = c.dbs(node);
+            let counter = {
+                let map = dbs.map.read().unwrap();
+                map.get("cd").map(|d| d.connections_count())
+            };
+            let Some(counter) = counter else { continue }; // a database that did not arrive is C05's business
+            checks += 1;
+            // the key as a session that already has the database selected reads it (a newcomer's use-db would republish it first)
+            let key = names[node].first().cloned().map(|nm| {
+                let (resp, pushed) = c.call(&nm, "get $connections");
+                pushed.iter().find_map(|l| l.strip_prefix("value ").map(|x| x.trim_end().to_string())).unwrap_or(format!("? {} {:?}", resp, pushed))
+            });
+            let key_wrong = key.as_ref().map(|k| *k != expected[node].to_string()).unwrap_or(false);
+            if counter != expected[node] || key_wrong {
+                v.report(
+                    json!({"check": "connections", "mode": "cluster-rejoin", "problem": if counter != expected[node] { "count-differs-from-open-sessions" } else { "key-differs-from-count" }, "node": if node == 0 { "primary" } else { "re-joined-secondary" }}),
+                    json!({"run": r, "seed": seed0, "trace": trace, "node": node, "sessions_open_on_the_node": expected[node], "counter": counter, "key_read_by_an_open_session": key,
+                           "links_since_rejoin": c.link_log()[before_links..].iter().take(60).map(|l| format!("[{}] n{}->n{} {}", l.0, l.1, l.2, l.3)).collect::<Vec<_>>()}),
+                );
+            }
+        }
+        done += 1;
+        c.shutdown();
+    }
+    (done, inconclusive, checks, full_with_early)
+}
+
 fn restart_part(v: &Verdicts) -> u64 {
     use crate::common::node::NodeOpts;
     let mut cases = 0u64;
@@ -599,11 +735,12 @@ pub fn run(tier: &str) -> i32 {
     sched::clear_callback();
     take_panics();
     let restart_cases = restart_part(&v);
+    let (cl_runs, cl_inconclusive, cl_checks, cl_full_early) = cluster_part(&v, if thorough { 1000 } else { 100 }, seed());
     let (tr_sessions, tr_shapes) = transports(&v, if thorough { 6_000 } else { 300 }, &mut rng);
     let s = st.into_inner().unwrap();
     ev.evaluations = s.sequences + il_runs + tr_sessions;
     ev.distinct_nontrivial = (s.shapes.len() + il_nontrivial.len() + tr_shapes.len()) as u64;
-    ev.rule = format!("sequential: {} systematic + {} random sequences of connect / use-db (db token, wrong token, user token, unknown db; same db again, other db) / other commands / disconnect over 3 sessions x 2 databases, model checked after every event against Database.connections, the $connections key and a watcher's notifications; interleaved: {} token-passing schedules of two sessions (use-db, use-db, disconnect|stay) ; transports: {} sessions in bursts of 1-3 over real TCP (orderly close, and connection reset with replies left unread), WebSocket (close frame and abrupt close) and HTTP (end of request), counts checked while connected and after the burst; distinct_nontrivial = distinct event-shape sequences (sequential) + distinct schedules in which both sessions touch one database + distinct transport burst shapes", systematic, n_random, il_runs, tr_sessions);
+    ev.rule = format!("sequential: {} systematic + {} random sequences of connect / use-db (db token, wrong token, user token, unknown db; same db again, other db) / other commands / disconnect over 3 sessions x 2 databases, model checked after every event against Database.connections, the $connections key and a watcher's notifications; interleaved: {} token-passing schedules of two sessions (use-db, use-db, disconnect|stay) ; transports: {} sessions in bursts of 1-3 over real TCP (orderly close, and connection reset with replies left unread), WebSocket (close frame and abrupt close) and HTTP (end of request), counts checked while connected and after the burst; cluster: {} simulated 2-node runs in which sessions select a database on both nodes, the secondary leaves (kill / clean stop, disk kept / wiped) and re-joins through a synchronisation, counts judged per node ({} node counts); distinct_nontrivial = distinct event-shape sequences (sequential) + distinct schedules in which both sessions touch one database + distinct transport burst shapes", systematic, n_random, il_runs, tr_sessions, cl_runs, cl_checks);
     ev.samples = s.samples.clone();
     ev.set("sequential_events", json!(s.events));
     ev.set("sequential_shapes", json!(s.shapes.len()));
@@ -611,6 +748,10 @@ pub fn run(tier: &str) -> i32 {
     ev.set("interleaved_distinct_schedules", json!(il_distinct.len()));
     ev.set("interleaved_schedules_sharing_a_database", json!(il_nontrivial.len()));
     ev.set("snapshot_with_open_sessions_then_restart_cases", json!(restart_cases));
+    ev.set("cluster_rejoin_runs", json!(cl_runs));
+    ev.set("cluster_rejoin_runs_inconclusive", json!(cl_inconclusive));
+    ev.set("cluster_rejoin_node_counts_checked", json!(cl_checks));
+    ev.set("cluster_rejoin_full_syncs_onto_a_node_with_sessions_already_on_the_database", json!(cl_full_early));
     ev.set("transport_sessions", json!(tr_sessions));
     ev.set("tcp_sessions_ended_by_a_connection_reset", json!(TCP_RESETS.load(std::sync::atomic::Ordering::SeqCst)));
     ev.set("transport_burst_shapes", json!(tr_shapes.len()));
@@ -627,6 +768,6 @@ pub fn run(tier: &str) -> i32 {
         println!("INCONCLUSIVE property=C17 reason=coverage floor not met ({} shapes, {} interleavings, {} transport sessions)", s.shapes.len(), il_nontrivial.len(), tr_sessions);
         return 2;
     }
-    println!("C17 {}: {} sequences ({} events, {} shapes), {} interleaved runs ({} distinct, {} sharing a db), {} transport sessions, {} violations", tier, s.sequences, s.events, s.shapes.len(), il_runs, il_distinct.len(), il_nontrivial.len(), tr_sessions, v.violation_count());
+    println!("C17 {}: {} sequences ({} events, {} shapes), {} interleaved runs ({} distinct, {} sharing a db), {} transport sessions, {} cluster re-join runs, {} violations", tier, s.sequences, s.events, s.shapes.len(), il_runs, il_distinct.len(), il_nontrivial.len(), tr_sessions, cl_runs, v.violation_count());
     code
 }
